@@ -84,7 +84,11 @@ def rand_soft(rng, seq, role="constraint", allow=None):
                     location=None if whole else rand_loc(rng, n, 8, strands=(1, 0)))
     if k == "keep_edits":
         d = dict(kind="keep_edits", max_edits=rng.randint(1, 3), location=None if whole else rand_loc(rng, n, 3, strands=(1, 0)))
-        if rng.random() < 0.25:
+        if rng.random() < 0.25 and n >= 4:
+            # the budget over a list of positions (with gaps) instead of a region
+            d["location"] = None
+            d["indices"] = sorted(rng.sample(range(n), rng.randint(2, min(n, 8))))
+        if rng.random() < 0.25 and d.get("indices") is None:
             del d["max_edits"]
             d["max_edits_percent"] = rng.choice([2, 10, 25, 50])
         return d
@@ -282,6 +286,8 @@ def _build_spec(d):
     if k == "keep_edits":
         if d.get("max_edits_percent") is not None:
             return dc.AvoidChanges(max_edits_percent=d["max_edits_percent"], location=loc)
+        if d.get("indices") is not None:
+            return dc.AvoidChanges(max_edits=d["max_edits"], indices=list(d["indices"]))
         return dc.AvoidChanges(max_edits=d["max_edits"], location=loc)
     if k == "length":
         return dc.SequenceLengthBounds(d["min_length"], d["max_length"])
